@@ -1095,7 +1095,7 @@ async fn run_request(svc: ClientSvc, req: http::Request<ChunkBody>, id: usize, r
     }
 }
 
-async fn run_fault(client: DuplexClient, f: FaultSpec, obs: O) {
+async fn run_fault(client: DuplexClient, f: FaultSpec, obs: O, tls: bool) {
     use tokio::io::{AsyncReadExt, AsyncWriteExt};
     let log = |s: String| obs.lock().unwrap().fault_log.push(s);
     match f.kind % 10 {
@@ -1178,8 +1178,34 @@ async fn run_fault(client: DuplexClient, f: FaultSpec, obs: O) {
         _ => {
             // well-behaved but idle: connects, sends a strict prefix of the h2 preface (possibly
             // nothing) and keeps the connection open until the server closes it
+            if tls && f.arg & 0x8000 != 0 {
+                // over TLS: completes the handshake, then idles the same way inside the session
+                if let Ok(s) = client.connect(4096).await {
+                    let n = (f.arg & 0x7fff) as usize % 24;
+                    let connector = tokio_rustls::TlsConnector::from(Arc::new(TLS_CONFIGS.with(|c| c.1.clone())));
+                    let name = rustls::pki_types::ServerName::try_from("example.com").unwrap();
+                    match connector.connect(name, s).await {
+                        Err(e) => log(format!("TLS holder: handshake failed: {e}")),
+                        Ok(mut t) => {
+                            let _ = t.write_all(&b"PRI * HTTP/2.0\r\n\r\nSM\r\n\r\n"[..n]).await;
+                            let _ = t.flush().await;
+                            log(format!("TLS holder completed the handshake, sent {n} preface bytes"));
+                            let mut b = [0u8; 64];
+                            loop {
+                                match t.read(&mut b).await {
+                                    Ok(0) | Err(_) => break,
+                                    Ok(_) => {}
+                                }
+                            }
+                            let now = obs.lock().unwrap().now();
+                            log(format!("TLS holder saw the connection closed at {now} ms"));
+                        }
+                    }
+                }
+                return;
+            }
             if let Ok(mut s) = client.connect(1024).await {
-                let n = f.arg as usize % 24;
+                let n = (f.arg & 0x7fff) as usize % 24;
                 let _ = s.write_all(&b"PRI * HTTP/2.0\r\n\r\nSM\r\n\r\n"[..n]).await;
                 log(format!("holder connected, sent {n} preface bytes"));
                 let mut b = [0u8; 64];
@@ -1271,7 +1297,7 @@ pub fn run_net_case(case: &NetCase) -> Result<Obs, String> {
                 let obs = obs.clone();
                 tokio::spawn(async move {
                     tokio::time::sleep(Duration::from_millis(f.at as u64)).await;
-                    run_fault(client, f, obs).await;
+                    run_fault(client, f, obs, case.tls).await;
                 });
             }
             tokio::time::sleep(Duration::from_millis(HORIZON_MS)).await;
